@@ -595,6 +595,7 @@ func merge(a, b map[string]cval) map[string]cval {
 
 func r12_3(c *RC) {
 	p := c.P
+	tableCallSites := map[*ssa.Function]int{}
 	for _, fn := range p.Funcs(s5Pkg) {
 		instrs(fn, func(_ *ssa.BasicBlock, _ int, in ssa.Instruction) {
 			// any comparison (== or EqualFold) one of whose operands is an element of a wellKnown*LocalDomainNames table
@@ -618,6 +619,32 @@ func r12_3(c *RC) {
 								return true
 							}
 						}
+						// a helper's slice parameter that receives such a table at a call site
+						if prm, ok := bl.(*ssa.Parameter); ok {
+							idx := -1
+							for i, q := range fn.Params {
+								if q == prm {
+									idx = i
+								}
+							}
+							if idx < 0 {
+								continue
+							}
+							for _, cs := range p.CallsToFn(fn) {
+								args := cs.Instr.(ssa.CallInstruction).Common().Args
+								if idx >= len(args) {
+									continue
+								}
+								for _, al := range Leaves(args[idx], nil) {
+									if u, ok := al.(*ssa.UnOp); ok {
+										if g, ok := u.X.(*ssa.Global); ok && strings.HasPrefix(g.Name(), "wellKnown") {
+											tableCallSites[fn]++
+											return true
+										}
+									}
+								}
+							}
+						}
 					}
 				}
 				return false
@@ -630,6 +657,18 @@ func r12_3(c *RC) {
 			case *ssa.Call:
 				if calleeID(x) == "strings.EqualFold" && (isTableElem(x.Common().Args[0]) || isTableElem(x.Common().Args[1])) {
 					c.OKH("name-compare@"+fnName(fn), x.Pos(), "strings.EqualFold against the local-name table")
+					// a shared helper serves one table per call site
+					for _, cs := range p.CallsToFn(fn) {
+						for _, a := range cs.Instr.(ssa.CallInstruction).Common().Args {
+							for _, al := range Leaves(a, nil) {
+								if u, ok := al.(*ssa.UnOp); ok {
+									if g, ok := u.X.(*ssa.Global); ok && strings.HasPrefix(g.Name(), "wellKnown") {
+										c.OK("name-compare-table@"+fnName(cs.Fn), cs.Pos(), "table %s is compared through %s (EqualFold)", g.Name(), fnName(fn))
+									}
+								}
+							}
+						}
+					}
 				}
 			}
 		})
@@ -638,18 +677,36 @@ func r12_3(c *RC) {
 
 func r12_4(c *RC) {
 	p := c.P
-	for _, fname := range []string{"parseEgressSocks5Request", "Server.readRequest"} {
+	for _, fname := range []string{"Server.FindAction", "Server.readRequest"} {
 		fn := p.Fn(s5Pkg, fname)
 		if fn == nil {
 			c.Anchor("socks5." + fname)
 			continue
 		}
+		// the parser call may sit in the function itself or in a helper of
+		// this package that it calls (parseEgressSocks5Request today)
 		found := false
-		instrs(fn, func(_ *ssa.BasicBlock, _ int, in ssa.Instruction) {
-			if cl, ok := in.(ssa.CallInstruction); ok && strings.HasSuffix(calleeID(cl), "model.Request).ReadFromSocks5") {
-				found = true
+		seen := map[*ssa.Function]bool{}
+		var visit func(f *ssa.Function, d int)
+		visit = func(f *ssa.Function, d int) {
+			if f == nil || f.Blocks == nil || seen[f] || d > 2 {
+				return
 			}
-		})
+			seen[f] = true
+			instrs(f, func(_ *ssa.BasicBlock, _ int, in ssa.Instruction) {
+				cl, ok := in.(ssa.CallInstruction)
+				if !ok {
+					return
+				}
+				if strings.HasSuffix(calleeID(cl), "model.Request).ReadFromSocks5") {
+					found = true
+				}
+				if sc := cl.Common().StaticCallee(); sc != nil && relPkg(sc) == s5Pkg {
+					visit(sc, d+1)
+				}
+			})
+		}
+		visit(fn, 0)
 		if found {
 			c.OK("parser@"+fname, fn.Pos(), "parses with (*model.Request).ReadFromSocks5")
 		} else {
